@@ -41,6 +41,7 @@ from pydiverse.transform._internal.pipe.pipeable import (
 from pydiverse.transform._internal.pipe.table import Table
 from pydiverse.transform._internal.tree import types
 from pydiverse.transform._internal.tree.col_expr import (
+    CaseExpr,
     Col,
     ColExpr,
     ColFn,
@@ -1651,6 +1652,9 @@ def preprocess_arg(arg: ColExpr, table: Table, *, agg_is_window: bool = True) ->
                 eval_aligned=eval_aligned | isinstance(expr, EvalAligned),
             )
         )
+        if isinstance(new, ColFn | CaseExpr):
+            # the type is derived from the children, whose types may have changed
+            new._dtype = None
 
         # add casts for boolean add / sum
         # If we have more operations like these, which we want to map to other
